@@ -18,7 +18,8 @@ From Coq Require Import ZArith List Bool.
 From PTK Require Import Lib.Sx Model.C04_KeyProc Model.C04_Filters Model.C04_Registry Model.C04_Run
                         Proofs.C04_KeyProcFacts Proofs.C04_RuleFacts Proofs.C04_FilterFacts
                         Proofs.C04_RegistryFacts Proofs.C04_ComposeFacts
-                        Model.C04_GlobalDyn Proofs.C04_GlobalDynFacts.
+                        Model.C04_GlobalDyn Proofs.C04_GlobalDynFacts
+                        Model.C04_KeyProcMut Proofs.C04_KeyProcMutFacts.
 Import ListNotations.
 Open Scope Z_scope.
 
@@ -359,3 +360,55 @@ Example C04_rule_example :
   send (index_from 0 l) [1] [] [] false IFlush = LDone [] [] [] false [EInvoke 0 [1]].
 Proof. split; reflexivity. Qed.
 Print Assumptions C04_rule_example.
+
+(* ---- round 7: handlers that mutate the registry DURING a pass (Model/C04_KeyProcMut.v: the binding
+   list is threaded through the handler calls; a table gives, per handler identity, the kb.add /
+   kb.remove(handler) calls its body makes first).
+   (a) with no mutating handler it is the processor of Model/C04_KeyProc.v - so C04_rule, C04_specificity,
+       ... apply verbatim to every pass whose handlers leave the registry alone; *)
+Theorem C04_mut_refines : forall fuel bs b flush e q d,
+  loop_m fuel [] bs b flush e q d = lift bs (loop fuel (index_from 0 bs) b flush e q d).
+Proof. exact loop_m_nomut. Qed.
+Print Assumptions C04_mut_refines.
+
+(* (b) the pass uses the registry current at each lookup: after a prefix dispatch by the retry scan, the
+       keys left are re-examined against the registry as the handler left it; *)
+Theorem C04_mut_retry_sees_mutation : forall fuel t (bs : list binding) (b : list Z) (flush : bool) (e : env) q d (i : nat) (m : ib),
+  b <> [] ->
+  (match filter (eager e) (get_matches (index_from 0 bs) e b) with
+   | [] => if flush then false else is_prefix (index_from 0 bs) e b
+   | _ :: _ => false end) = false ->
+  last_opt (match filter (eager e) (get_matches (index_from 0 bs) e b) with
+            | [] => get_matches (index_from 0 bs) e b
+            | _ :: _ => filter (eager e) (get_matches (index_from 0 bs) e b) end) = None ->
+  scan (index_from 0 bs) e b (length b) = Some (i, m) ->
+  hraised (snd (call t bs m e q d)) = false ->
+  hdone (snd (call t bs m e q d)) = false ->
+  loop_m (S fuel) t bs b flush e q d =
+  mapp (EInvoke (fst m) (firstn i b) :: hevs (snd (call t bs m e q d)))
+       (loop_m fuel t (fst (call t bs m e q d)) (skipn i b) false
+               (he (snd (call t bs m e q d))) (hq (snd (call t bs m e q d))) false).
+Proof. exact loop_m_retry_sees_mutation. Qed.
+Print Assumptions C04_mut_retry_sees_mutation.
+
+Theorem C04_mut_add_visible : forall b bs, cls (bfilter b) <> CNever -> apply_muts [MAdd b] bs = (bs ++ [b], true).
+Proof. exact apply_add. Qed.
+Print Assumptions C04_mut_add_visible.
+
+(* (c) conservation still holds, for every table of mutations and every fuel: over a whole process_keys run
+       pending-before ++ popped keys = delivered / dropped / discarded / handed back ++ pending-after; the
+       generator loop still terminates; an exception (raising handler, failing remove) resets the processor *)
+Theorem C04_mut_conservation : forall fuel t bs s,
+  let '(bs', s', evs, pop, stt) := process_keys_m fuel t bs s in
+  buf s ++ items_keys pop = evs_keys evs ++ buf s'.
+Proof. exact process_keys_m_conserved. Qed.
+Print Assumptions C04_mut_conservation.
+
+Theorem C04_mut_send_terminates : forall t bs b e q d it, send_m t bs b e q d it <> MFuel.
+Proof. exact send_m_fuel. Qed.
+Print Assumptions C04_mut_send_terminates.
+
+Theorem C04_mut_exception_resets : forall fuel t bs s bs' s' evs pop,
+  process_keys_m fuel t bs s = (bs', s', evs, pop, SRaised) -> s' = mkst [] [] (cenv s') (sdone s') None.
+Proof. exact process_keys_m_raised. Qed.
+Print Assumptions C04_mut_exception_resets.
